@@ -26,10 +26,13 @@ open SpyneModel SpyneModel.Flat SpyneModel.Generated
 /-- the leaf codecs of the current tree obey the shared leaf laws (C08) -/
 theorem leafLaws03 : LeafLaws facts03.leaf := SpyneModel.Props.leafLaws08
 
-/-- frequencies are counted per member path, and EVERY object instance that is created gets an entry
+/-- frequencies are counted per member path, the count of a member is the number of values of ALL keys that address
+    it (`evCount` sums: repeated key, indexed keys `tags[0]=a&tags[1]=b`, mixtures — `flat_soft_accepted_conforms` and
+    `flat_soft_rejects_nonconformant` are about every such document), and EVERY object instance that is created gets an entry
     in the table — also the one `key=empty` creates (fix C05-06; without it this is `false` and an
     object made by `=empty` is never checked for its mandatory members) -/
-theorem facts03_soft : facts03.freqScope = .perMember ∧ facts03.freqTouch = true := by decide
+theorem facts03_soft : facts03.freqScope = .perMember ∧ facts03.freqTouch = true ∧ facts03.freqAccumulates = true := by
+  decide
 
 /-- soft validation; `strict = false` is `strict_arrays = False`, the default -/
 def softCfg (strict : Bool) (delim : Text) : Cfg := ⟨strict, true, delim⟩
@@ -49,7 +52,7 @@ theorem flat_soft_accepted_conforms (strict : Bool) (delim : Text) (fields : Lis
     (hs : flatSig fields = true) (doc : Doc) (node : Node)
     (h : decode facts03 (softCfg strict delim) (ofFields fields) doc = .ok node) :
     ∃ attrs, node = .obj attrs ∧ conformsFields fields (argsOf fields attrs) = true :=
-  decode_soft_conforms facts03 leafLaws03 facts03_soft.1 facts03_soft.2 strict delim fields hs doc node h
+  decode_soft_conforms facts03 leafLaws03 facts03_soft.1 facts03_soft.2.1 strict delim fields hs doc node h
 
 /-- the same for the raw query string of a GET (or the body of a form POST): ANY text -/
 theorem flat_soft_query_accepted_conforms (strict : Bool) (delim : Text) (fields : List (Text × SpyneModel.Ty))
@@ -190,6 +193,14 @@ example : Ex.isOk (decode facts03 (softCfg false ".".toList) (ofFields exFields)
     (d [("n", ["200"]), ("m", ["abc", "d"]), ("o.x", ["5"]), ("a[3].x", ["1"]), ("a[1].x", ["2"])])) = true := by
   decide +kernel
 
+-- the values of a list of primitives under indexed keys, under the repeated key, or both: every value counts
+-- (`m` has max_occurs = 2; nested: `a[0].…` has no such member, so at the top level)
+example : Ex.isFault (decode facts03 (softCfg false ".".toList) (ofFields exFields)
+    (d [("n", ["7"]), ("m[0]", ["a"]), ("m[1]", ["b"]), ("m[2]", ["c"])])) = true := by decide +kernel
+example : Ex.isFault (decode facts03 (softCfg false ".".toList) (ofFields exFields)
+    (d [("n", ["7"]), ("m", ["a", "b"]), ("m[5]", ["c"])])) = true := by decide +kernel
+example : Ex.isOk (decode facts03 (softCfg false ".".toList) (ofFields exFields)
+    (d [("n", ["7"]), ("m[1]", ["b"]), ("m[0]", ["a"])])) = true := by decide +kernel
 -- strict_arrays: a first key `a[1]…` fabricates element 0, which misses its mandatory `x`
 example : Ex.isFault (decode facts03 (softCfg true ".".toList) (ofFields exFields)
     (d [("n", ["7"]), ("a[1].x", ["1"])])) = true := by decide +kernel
